@@ -34,6 +34,7 @@ type RegexInfo struct {
 	Suffix    []byteSet // from the end: Suffix[0] is the last byte
 	Err       string
 	Tiles     int // n > 0: pattern is ^(g1)..(gn)$, the groups tile the subject
+	GroupFixed map[int][]byteSet // mandatory top-level groups of fixed width: their byte classes
 }
 
 func hasCapture(re *syntax.Regexp) bool {
@@ -232,6 +233,21 @@ func (w *World) regexInfo(lit string) *RegexInfo {
 	if len(elems) > 0 && elems[len(elems)-1].Op == syntax.OpEndText {
 		ri.AnchorEnd = true
 		elems = elems[:len(elems)-1]
+	}
+	// mandatory top-level capture groups of fixed width (e.g. (\d{6})): T2 fact on the group text
+	ri.GroupFixed = map[int][]byteSet{}
+	{
+		top := []*syntax.Regexp{re}
+		if re.Op == syntax.OpConcat {
+			top = re.Sub
+		}
+		for _, e := range top {
+			if e.Op == syntax.OpCapture {
+				if bs, ok := fixedBytes(expandRepeat(e.Sub[0])); ok {
+					ri.GroupFixed[e.Cap] = bs
+				}
+			}
+		}
 	}
 	if ri.AnchorBeg && ri.AnchorEnd {
 		// top-level shape ^(..)(..)..(..)$ with top-level captures numbered 1..n
@@ -458,6 +474,15 @@ func (w *World) regexUFDecls(text string) string {
 			fmt.Fprintf(&b, "(declare-fun regroup_%s_%d (Str) Str)\n", id, k)
 			fmt.Fprintf(&b, "(assert (forall ((s Str)) (! (=> (wfstr s) (wfstr (regroup_%s_%d s))) :pattern ((regroup_%s_%d s)))))\n", id, k, id, k)
 		}
+		for k, bs := range ri.GroupFixed {
+			var fs []string
+			g := fmt.Sprintf("(regroup_%s_%d s)", id, k)
+			fs = append(fs, fmt.Sprintf("(= (slen %s) %d)", g, len(bs)))
+			for i, b := range bs {
+				fs = append(fs, byteSetTerm(b, fmt.Sprintf("(at %s %d)", g, i)))
+			}
+			fmt.Fprintf(&b, "(assert (forall ((s Str)) (! (=> (rematch_%s s) %s) :pattern ((rematch_%s s)))))\n", id, and(fs...), id)
+		}
 		if ri.Tiles > 0 {
 			// T2: the pattern is ^(g1)(g2)..(gn)$ - the groups tile the whole subject
 			cat := fmt.Sprintf("(regroup_%s_1 s)", id)
@@ -595,4 +620,24 @@ func (fc *FnCtx) bindRegexArg(st *State, argExpr ast.Expr, v Val) {
 	}
 	id := fc.regexObjID(st, v)
 	st.addAssume("(forall ((m Str)) (! (=> (reobj_span " + id + " m) " + ri.spanFacts("m") + ") :pattern ((reobj_span " + id + " m))))")
+}
+
+// expandRepeat: x{n} with a fixed count becomes n copies (so that fixedBytes sees it).
+func expandRepeat(re *syntax.Regexp) *syntax.Regexp {
+	if re.Op == syntax.OpRepeat && re.Min == re.Max && re.Min >= 0 && re.Min <= 16 {
+		n := &syntax.Regexp{Op: syntax.OpConcat}
+		for i := 0; i < re.Min; i++ {
+			n.Sub = append(n.Sub, expandRepeat(re.Sub[0]))
+		}
+		return n
+	}
+	if len(re.Sub) == 0 {
+		return re
+	}
+	c := *re
+	c.Sub = make([]*syntax.Regexp, len(re.Sub))
+	for i, s := range re.Sub {
+		c.Sub[i] = expandRepeat(s)
+	}
+	return &c
 }
